@@ -437,6 +437,10 @@ def run_session(ctx, label, calls, start, lines, pend, encoded):
                           {'kind': 'encode', 'label': label, 'start': start, 'calls': trace + [{'type': t, 'version': v, 'source': 0, 'payload': hx(p)}]})
 
 
+def py_canon(pv):
+    return 'structError' if pv == 'raised:error' else str(pv)
+
+
 def parse_kv(s):
     return dict(x.split('=', 1) for x in s.split(' '))
 
@@ -473,7 +477,7 @@ def judge_valid(ctx, label, b, cx, md):
     if c['hdr'] != '%d,%d,%d,%d,%d,%d' % (mt, mv, seq, sid, sz, crc):
         ctx.violation('C06/header-layout-differs-cxx', 'C++ reads %s, Python wrote %s' % (c['hdr'], (mt, mv, seq, sid, sz, crc)), replay)
     m = parse_kv(md)
-    want = {'py': str(pv), 'cxx': {'1': '1', '0': '0', 'oob': 'oob'}[c['valid']], 'framer': '1' if c['crc'] == str(stored) else '0',
+    want = {'py': py_canon(pv), 'cxx': {'1': '1', '0': '0', 'oob': 'oob'}[c['valid']], 'framer': '1' if c['crc'] == str(stored) else '0',
             'type': str(mt), 'ver': str(mv), 'seq': str(seq), 'src': str(sid), 'size': str(sz), 'crc': str(crc)}
     for k, w in want.items():
         if m.get(k) != w:
@@ -572,7 +576,7 @@ def check_corruption(ctx, exe, encoded):
                 break
 
 
-def judge_flip(ctx, label, msg, kind, bits, cx, follower, model_lines, model_pend):
+def judge_flip(ctx, label, msg, kind, bits, cx, follower, model_lines, model_pend, always_model=False):
     """One altered copy: every validator must reject it."""
     bad = apply_bits(msg, bits)
     region = region_of(bits)
@@ -581,34 +585,46 @@ def judge_flip(ctx, label, msg, kind, bits, cx, follower, model_lines, model_pen
     ctx.count('%s_%s' % (kind, region))
     tag = '%s-%s' % (kind, 'size-field' if 'size' in region else ('crc-field' if region == 'crc' else 'protected-region' if region == 'data' else 'both-regions'))
     pv = py_validate(bad)
+    accepted = []
     if pv != 0:
-        ctx.violation('C06/%s-accepted-by-validate_crc' % tag, 'unpack(validate_crc=True) -> %s on %s with bits %s flipped' % (pv, label, list(bits)), replay)
+        accepted.append(('validate_crc', 'unpack(validate_crc=True) -> %s' % pv))
     run_decoders = cx is not None
     if run_decoders:
         dec = py_decode(bad)
         if isinstance(dec, str) or any(o == 0 for o, _ in dec):
-            ctx.violation('C06/%s-accepted-by-python-decoder' % tag, 'decoder returned %s for %s with bits %s flipped' %
-                          (dec if isinstance(dec, str) else [(o, len(r)) for o, r in dec], label, list(bits)), replay)
+            accepted.append(('python-decoder', 'decoder returned %s' % (dec if isinstance(dec, str) else [(o, len(r)) for o, r in dec])))
         if follower is not None and (kind != 'single' or bits[0] % 3 == 0):
             dec2 = py_decode(bad + follower)
             if isinstance(dec2, str) or any(o == 0 for o, _ in dec2):
-                ctx.violation('C06/%s-accepted-by-python-decoder' % tag, 'decoder returned %s for the altered %s followed by a valid message' %
-                              (dec2 if isinstance(dec2, str) else [(o, len(r)) for o, r in dec2], label), replay)
+                accepted.append(('python-decoder', 'decoder returned %s for the altered message followed by a valid message' %
+                                 (dec2 if isinstance(dec2, str) else [(o, len(r)) for o, r in dec2])))
             elif 'size' not in region and (len(msg), follower) not in dec2:
                 ctx.violation('C06/decoder-lost-following-message', 'the valid message after the altered %s was not returned: %s' %
                               (label, [(o, len(r)) for o, r in dec2]), replay)
         if cx[0] == '1':
-            ctx.violation('C06/%s-accepted-by-IsValid' % tag, 'IsValid() -> true on %s with bits %s flipped' % (label, list(bits)), replay)
+            accepted.append(('IsValid', 'IsValid() -> true'))
         if cx[1] == '1':
-            ctx.violation('C06/%s-accepted-by-cxx-crc-compare' % tag, 'header.crc == CalculateCRC(buffer) on %s with bits %s flipped' % (label, list(bits)), replay)
+            accepted.append(('cxx-crc-compare', 'header.crc == CalculateCRC(buffer)'))
         if cx[2] not in '0':
-            ctx.violation('C06/%s-accepted-by-framer' % tag, 'framer made %s callbacks on %s with bits %s flipped' % (cx[2], label, list(bits)), replay)
+            accepted.append(('framer', 'framer made %s callbacks' % cx[2]))
         if cx[0] == 'o':
             ctx.count('cxx_not_called_would_read_past_buffer')
+    if accepted:
+        size2 = struct.unpack_from('<I', bad, 16)[0]
+        crc32 = repo_crc32()
+        reframed = 'size' in region and HDR + size2 <= len(bad) and crc32(bad[8:HDR + size2]) == struct.unpack_from('<I', bad, 4)[0]
+        if reframed:
+            # the altered size field frames a different extent of the same bytes whose CRC happens to be the stored one
+            ctx.violation('C06/size-field-alteration-reframes-a-crc-valid-message',
+                          '%s with bits %s flipped (payload size %d -> %d) is accepted: %s' %
+                          (label, list(bits), len(msg) - HDR, size2, '; '.join(w for _, w in accepted)), replay)
+        else:
+            for who, what in accepted:
+                ctx.violation('C06/%s-accepted-by-%s' % (tag, who), '%s on %s with bits %s flipped' % (what, label, list(bits)), replay)
     # correspondence with the model validators on a subset (all bursts and doubles handed to C++, every 5th single)
-    if run_decoders and (kind != 'single' or bits[0] % 5 == 0):
+    if run_decoders and (always_model or kind != 'single' or bits[0] % 5 == 0):
         model_lines.append('validate ' + hx(bad))
-        model_pend.append((replay, {'py': str(pv), 'cxx': {'1': '1', '0': '0', 'o': 'oob', 'f': None}[cx[0]],
+        model_pend.append((replay, {'py': py_canon(pv), 'cxx': {'1': '1', '0': '0', 'o': 'oob', 'f': None}[cx[0]],
                                     'framer': {'1': '1', '0': '0', 'o': '0', 'f': None}[cx[1]]}))
 
 
@@ -656,6 +672,75 @@ def pairs_python(ctx, label, msg):
     ctx.cov['evaluations'] += n
 
 
+def craft_size_flip(rng, old_size, new_size, msg_type=10000, version=0, seq=0, source=0, prefix=None):
+    """A payload of `old_size` bytes (the last four solved for) such that the message encoded with it, with its
+    payload size field changed to `new_size` (< old_size - 3), is again a CRC-consistent message.  The CRC is affine
+    in the four free bytes, so they are found by Gaussian elimination over GF(2)."""
+    crc32 = repo_crc32()
+
+    def tail(size):
+        return struct.pack('<BBHIII', 2, version, msg_type, seq, size, source)
+    pre = bytes(rng.getrandbits(8) for _ in range(old_size - 4)) if prefix is None else prefix
+    target = crc32(tail(new_size) + pre[:new_size])
+    zero = crc32(tail(old_size) + pre + bytes(4))
+    piv = {}
+    for k in range(32):
+        c, m = crc32(tail(old_size) + pre + struct.pack('<I', 1 << k)) ^ zero, 1 << k
+        for b in sorted(piv, reverse=True):
+            if c >> b & 1:
+                c ^= piv[b][0]
+                m ^= piv[b][1]
+        if c:
+            piv[c.bit_length() - 1] = (c, m)
+    t, sol = zero ^ target, 0
+    for b in sorted(piv, reverse=True):
+        if t >> b & 1:
+            t ^= piv[b][0]
+            sol ^= piv[b][1]
+    if t:
+        raise fv.InfraError('craft_size_flip: no solution')
+    return pre + struct.pack('<I', sol)
+
+
+CRAFTED_LITERAL = '2e3100000d27d90402001027000000000c00000000000000010203040506070808c012ac'   # = c06Crafted in Spec/Integrity.lean
+
+
+def check_crafted(ctx, exe):
+    """Messages built so that ONE flipped bit of payload_size_bytes reframes them as another CRC-valid message."""
+    from fusion_engine_client.parsers.encoder import FusionEngineEncoder
+    rng = ctx.rng
+    todo = [(12, 8, 10000, 0, 0, 0, bytes(range(1, 9)))]
+    for _ in range(4):
+        bit = rng.randrange(0, 6)
+        new = rng.randrange(0, 40) & ~(1 << bit)
+        old = new | (1 << bit)
+        if old < new + 4:
+            continue
+        todo.append((old, new, rng.choice([10000, 13120, 2999]), 0, rng.getrandbits(32), rng.getrandbits(32), None))
+    model_lines, model_pend, hl, meta = [], [], [], []
+    for old, new, t, v, seq, src, prefix in todo:
+        payload = craft_size_flip(rng, old, new, t, v, seq, src, prefix)
+        enc = FusionEngineEncoder()
+        enc.sequence_number = seq
+        msg = bytes(enc.encode_message(make_raw_class(t, v, payload)(), src))
+        bits = tuple(8 * 16 + k for k in range(32) if (old ^ new) >> k & 1)
+        hl.append('mut %s %s' % (hx(msg), bits_to_spec(bits)))
+        meta.append((msg, bits))
+        ctx.count('crafted_size_flip_messages')
+    if todo[0][6] is not None and meta[0][0].hex() != CRAFTED_LITERAL:
+        ctx.disagree('the encoder no longer returns the bytes of c06Crafted for its payload: %s' % meta[0][0].hex(), {'kind': 'valid', 'msg': meta[0][0].hex()})
+    hout = run_harness(ctx, exe, hl)
+    for (msg, bits), cx in zip(meta, hout):
+        judge_flip(ctx, 'crafted', msg, 'single', bits, cx, None, model_lines, model_pend, always_model=True)
+    outs = ctx.driver(model_lines)
+    for (replay, want), got in zip(model_pend, outs):
+        m = parse_kv(got)
+        for k, w in want.items():
+            if w is not None and m.get(k) != w:
+                ctx.disagree('validator != model on an altered crafted message: %s impl=%s model=%s' % (k, w, m.get(k)), replay)
+                break
+
+
 # ---- driver ------------------------------------------------------------------------------------------------
 def run(ctx):
     exe = build_harness(ctx)
@@ -668,6 +753,7 @@ def run(ctx):
     if encoded:
         ctx.sample({'encoded': encoded[0][0], 'bytes': encoded[0][1].hex()})
         check_corruption(ctx, exe, encoded)
+        check_crafted(ctx, exe)
 
 
 def search(ctx):
